@@ -344,15 +344,23 @@ ArcOk(ev) ==
 
 \* ---- slerp extrapolated to integer parameters k (outside [0, 1]): the rotation is the k-th power of the step from q0 to q1, so with
 \* D = <q0, q1> (exact from the logged operands):  <q0, r_k> = T_|k|(D)  and  <q1, r_k> = T_|k-1|(D); unit length ----------------------
-SlerpIntTol(ev) == IF ev.f = 32 THEN DyPow2(-10) ELSE DyPow2(-30)
+\* the tolerance follows the conditioning: the implementation takes the angle from its own rounded <q0, q1>, and d T_k / d D = k U_{k-1}(D)
+\* (about k^2 for nearly parallel quaternions, about k for well separated ones), so  t = u (32 + 16 |k| max(1, |U_{|k|-1}(D)|)):
+\* 1.3e-5 at k = 12 for well separated single-precision quaternions (measured worst case of the unchanged crate: 5e-6), 1.4e-4 when
+\* nearly parallel (measured 7.5e-5)
 AbsI(n) == IF n < 0 THEN -n ELSE n
+SlerpIntTol(ev, k, D) ==
+    LET p == P(ev) n == AbsI(k)
+        U == IF n = 0 THEN Dy0 ELSE DyAbs(ChebUT(n - 1, D, ChebBits(ev)))
+        cond == IF DyLe(U, Dy1) THEN Dy1 ELSE U IN
+    DyScale(DyAdd(DyInt(32), DyMul(DyInt(16 * n), cond)), -p)
 SlerpIntOk(ev) ==
-    LET q0 == DV(ev.q0) q1 == DV(ev.q1) t == SlerpIntTol(ev) D == VDot(q0, q1) IN
+    LET q0 == DV(ev.q0) q1 == DV(ev.q1) D == VDot(q0, q1) IN
     /\ Len(ev.r) = Len(ev.ks) /\ \A j \in 1..Len(ev.r) : AllFinite(ev.r[j])
     /\ DyNear(VSq(q0), Dy1, SlerpTol(ev)) /\ DyNear(VSq(q1), Dy1, SlerpTol(ev))
     /\ DyIsPos(D)                                                                   \* the recorded pair is on the same hemisphere: no arc flip
     /\ \A j \in 1..Len(ev.r) :
-          LET r == DV(ev.r[j]) k == ev.ks[j] IN
+          LET r == DV(ev.r[j]) k == ev.ks[j] t == SlerpIntTol(ev, IF AbsI(k) >= AbsI(k - 1) THEN k ELSE k - 1, D) IN
           /\ DyNear(VSq(r), Dy1, t)
           /\ DyNear(VDot(q0, r), Ch(ev, AbsI(k), D), t)
           /\ DyNear(VDot(q1, r), Ch(ev, AbsI(k - 1), D), t)
@@ -379,6 +387,8 @@ Ok(ev) ==
 \* the Chebyshev recurrence on known cosines:  T_2(1/2) = -1/2, T_3(1/2) = -1, T_8(0) = 1, T_4(1) = 1
 ASSUME /\ DyCmp(Cheb(2, DyPow2(-1)), DyNeg(DyPow2(-1))) = 0 /\ DyCmp(Cheb(3, DyPow2(-1)), DyInt(-1)) = 0
        /\ DyCmp(Cheb(8, Dy0), Dy1) = 0 /\ DyCmp(Cheb(4, Dy1), Dy1) = 0 /\ DyCmp(Cheb(1, DyPow2(-3)), DyPow2(-3)) = 0
+\* second kind:  U_2(1/2) = 0, U_3(1) = 4, U_1(1/4) = 1/2
+ASSUME /\ DyIsZero(ChebUT(2, DyPow2(-1), 64)) /\ DyCmp(ChebUT(3, Dy1, 64), DyInt(4)) = 0 /\ DyCmp(ChebUT(1, DyPow2(-2), 64), DyPow2(-1)) = 0
 \* Lagrange identity on a 3-4-5 example: |a|^2 |b|^2 - (a.b)^2 = |a x b|^2
 ASSUME DyCmp(Lagrange(<<DyInt(3), DyInt(0)>>, <<DyInt(3), DyInt(4)>>), DyInt(144)) = 0
 
